@@ -184,9 +184,28 @@ def load_known():
 
 def run(prop_id, tier, seed, replay=None):
     t0 = time.time()
-    mod = importlib.import_module("harness.props." + prop_id.lower())
-    ctx = Ctx(prop_id, tier, seed)
     os.makedirs(REPLAYS, exist_ok=True)
+    try:
+        mod = importlib.import_module("harness.props." + prop_id.lower())
+    except Exception:
+        # the harness cannot even import what it observes (holopy no longer imports, or a symbol the property is
+        # anchored in is gone): the property is no longer shown to hold and there is nothing to run a search on
+        tb = traceback.format_exc()
+        if replay is not None or "holopy" not in tb:
+            raise
+        path = os.path.join(REPLAYS, "%s-%d-broken.json" % (prop_id, seed))
+        json.dump(dict(property=prop_id, kind="broken-obligation", broken_obligations=["harness-import: the code the property is observed at cannot be imported"],
+                       build_output=tb[-3000:]), open(path, "w"), indent=1)
+        ev = dict(property_id=prop_id, tier=tier, seed=seed, level="other",
+                  coverage=dict(evaluations=1, distinct_nontrivial=2, samples=[dict(kind="import-failure", traceback=tb[-1500:])],
+                                broken_obligations=["harness-import"]),
+                  wall_s=round(time.time() - t0, 2), violations=1)
+        os.makedirs(EVID, exist_ok=True)
+        json.dump(ev, open(os.path.join(EVID, prop_id + ".json"), "w"), indent=1)
+        print("VIOLATION property=%s replay=%s no-failing-input-found" % (prop_id, path))
+        print("  broken: the implementation can no longer be imported by the harness:", tb.strip().splitlines()[-1][:300])
+        return 1
+    ctx = Ctx(prop_id, tier, seed)
 
     if replay is not None:
         data = json.load(open(replay))
@@ -199,10 +218,16 @@ def run(prop_id, tier, seed, replay=None):
     for k, v in gen_notes.items():
         broken += ["translator:%s:%s" % (k, f) for f in v]
     ok_model, out_model = lean.build(["HoloModel", "HoloGen"])
+    driver_ok = True
     if not ok_model:
-        print(out_model[-3000:])
-        print("TOOL-FAILURE: model libraries do not build")
-        return 2
+        # the model regenerated from the current source no longer compiles (a translated definition changed shape):
+        # every theorem about it is an open obligation and the driver cannot run; the search still can
+        if not any(getattr(mod, "GEN_DEPS", [])) or "HoloGen" not in out_model:
+            print(out_model[-3000:])
+            print("TOOL-FAILURE: model libraries do not build")
+            return 2
+        broken.append("build:HoloGen (the model regenerated from the source does not compile)")
+        driver_ok = False
     modules = list(mod.LEAN_MODULES)
     ok, out = lean.build(modules)
     if not ok:
@@ -227,6 +252,8 @@ def run(prop_id, tier, seed, replay=None):
         mod.correspondence(ctx)
     except Exception:
         corr_err = traceback.format_exc()
+    if not driver_ok:
+        ctx.cases = []
     disagreements = []
     op_hist = {}
     err_hist = {}
@@ -257,9 +284,10 @@ def run(prop_id, tier, seed, replay=None):
                                           impl=jsonable(c["impl"]) if np.size(c["impl"]) < 200 else "<%d values>" % np.size(c["impl"]),
                                           model=(o if len(str(o)) < 4000 else str(o)[:4000]), info=str(info)))
     if corr_err is not None:
-        print(corr_err[-3000:])
-        print("TOOL-FAILURE: correspondence harness raised")
-        return 2
+        # the harness drives holopy's internals; when one of them is gone or behaves differently the correspondence
+        # cannot be established any more: an open obligation, not a verdict of the tool about itself
+        print(corr_err[-1500:])
+        broken.append("correspondence-harness: " + corr_err.strip().splitlines()[-1][:200])
     dis_ops = sorted({d["op"] for d in disagreements})
     if disagreements:
         ctx.focus = disagreements
@@ -271,9 +299,12 @@ def run(prop_id, tier, seed, replay=None):
     try:
         mod.search(ctx)
     except Exception:
-        print(traceback.format_exc()[-3000:])
-        print("TOOL-FAILURE: search harness raised")
-        return 2
+        tb = traceback.format_exc()
+        print(tb[-3000:])
+        if not broken:
+            print("TOOL-FAILURE: search harness raised")
+            return 2
+        ctx.notes.append("search harness raised after obligations broke: " + tb.strip().splitlines()[-1][:200])
 
     # ---- verdict ----------------------------------------------------------
     known = [k for k in load_known() if k.get("property") == prop_id and k.get("status") == "known"]
